@@ -106,8 +106,9 @@ def St.init (o : Obj σ α) (sp : Space σ δ) : St σ α δ :=
 /-- `pis_.nextStart()` loop of `solve()`: a start motion has `cost = identityCost()`, `incCost = Cost()`
 (kept as the identity here), no parent. -/
 def St.addStart (o : Obj σ α) (s : St σ α δ) (x : σ) : St σ α δ :=
-  { s with motions := s.motions.push
-      { state := x, parent := none, cost := o.identity, incCost := o.identity, children := [], inGoal := false } }
+  let m : Motion σ α :=
+    { state := x, parent := none, cost := o.identity, incCost := o.identity, children := [], inGoal := false }
+  { s with motions := s.motions.push m }
 
 /-- `si_->checkMotion(a, b)`: next oracle answer (invalid and `starved` when the pool is dry). -/
 def St.checkMotion (s : St σ α δ) (a b : σ) : Bool × St σ α δ :=
@@ -307,7 +308,9 @@ def iterate (o : Obj σ α) (sp : Space σ δ) (s0 : St σ α δ) : St σ α δ 
       | none => (nmotion, inc0, cost0)
     -- add motion to the tree
     let new := s.motions.size
-    let ms := s.motions.push { state := dstate, parent := some par, cost := cost, incCost := inc, children := [], inGoal := false }
+    let newMotion : Motion σ α :=
+      { state := dstate, parent := some par, cost := cost, incCost := inc, children := [], inGoal := false }
+    let ms := s.motions.push newMotion
     let ms := ms.modify par (fun m => { m with children := m.children ++ [new] })
     let s := { s with motions := ms, tie := s.tie || t1 || t2 }
     -- rewiring
